@@ -39,6 +39,11 @@ TRANSPARENT = [
     (r"^core::slice::<impl \[T\]>::(iter|iter_mut|first|last|to_vec)$", (0,)),
     (r"^alloc::vec::Vec::<T, A>::(iter|iter_mut|as_slice|into_iter|drain)$", (0,)),
     (r"^core::task::poll::Poll::<T>::.*$", (0,)),
+    (r"^alloc::fmt::format$", (0,)),
+    (r"^core::hint::must_use$", (0,)),
+    (r"^core::fmt::rt::<impl core::fmt::Arguments<'\w+>>::new_(v1|const|v1_formatted)$", (0,)),
+    (r"^alloc::string::String::as_str$", (0,)),
+    (r"^alloc::string::<impl core::ops::deref::Deref for alloc::string::String>::deref$", (0,)),
 ]
 _TRANSPARENT_RX = [(re.compile(p), idx) for p, idx in TRANSPARENT]
 
@@ -655,7 +660,7 @@ def _bool_taint(body, seeds):
     return t
 
 
-def eval_guard(body, atom_vals, max_states=20000):
+def eval_guard(body, atom_vals, max_states=20000, start=0, env0=None, extra_tracked=()):
     """Path-sensitive abstract walk of the CFG under a valuation of atom calls.
 
     atom_vals: {bb_of_call: bool}  — the value returned by the (bool-returning) call terminating block bb.
@@ -669,11 +674,11 @@ def eval_guard(body, atom_vals, max_states=20000):
         t = body.term(bb)
         if t["t"] == "call" and len(t["dest"]) == 1:
             seeds.add(t["dest"][0])
-    tracked = _bool_taint(body, seeds)
+    tracked = _bool_taint(body, seeds | set(extra_tracked))
     reach = set()
     rets = set()
     seen = set()
-    stack = [(0, ())]
+    stack = [(start, tuple(sorted((env0 or {}).items())))]
     n = 0
     while stack:
         bb, envt = stack.pop()
